@@ -139,9 +139,10 @@ def print_assumptions(prop_module, theorems):
     return res, out
 
 # ------------------------------------------------------------------ implementation runner
-def run_impl(tasks, shards=12, script='implrun.py', timeout=1800, env_extra=None):
+def run_impl(tasks, shards=12, script='implrun.py', timeout=1800, env_extra=None, isolate=False):
+    """isolate=True: one fresh interpreter per task (at most `shards` at a time)"""
     if not tasks: return []
-    n = max(1, min(shards, (len(tasks) + 3) // 4))
+    n = len(tasks) if isolate else max(1, min(shards, (len(tasks) + 3) // 4))
     chunks = [tasks[i::n] for i in range(n)]
     d = tempfile.mkdtemp(prefix='nbv_impl_')
     try:
@@ -153,7 +154,7 @@ def run_impl(tasks, shards=12, script='implrun.py', timeout=1800, env_extra=None
             if p.returncode != 0 or not os.path.exists(rf):
                 return [{'err': 'HarnessCrash', 'msg': (p.stderr or '')[-800:]} for _ in chunks[i]]
             return json.load(open(rf))
-        with ThreadPoolExecutor(max_workers=n) as ex:
+        with ThreadPoolExecutor(max_workers=min(n, shards)) as ex:
             parts = list(ex.map(one, range(n)))
     finally:
         shutil.rmtree(d, ignore_errors=True)
